@@ -507,7 +507,7 @@ static long g_nt_quota = 0;  // remaining nontrivial() insertions of the current
 
 static inline void section_quota( const long q )
 {
-   g_nt_quota = q;
+   g_nt_quota = q * 2 / 5;  // all sections together stay below ~2 million insertions per shard
 }
 
 // Evaluate one placed input (already at slot(n)) against a battery of single-unit rules of ONE family.
